@@ -178,6 +178,50 @@ def replay(rec: Dict[str, Any]) -> List[Tuple[str, Dict[str, Any], str]]:
     return [(sig, case, bad[0])]
 
 
+def sibling_operations(doc_t: Dict[str, Any]) -> List[Tuple[str, Dict[str, Any], str]]:
+    """'addne differs from add only in leaving an existing object member untouched; addap differs only in appending when the
+    array index cannot be resolved': at every array position of the document - named by whatever token, the documented
+    negative indices included - add, addne and addap (where the index resolves) are the same operation.  Differential:
+    what the token means is not judged here, only that the three agree."""
+    from jsonpath import JSONPatch, JSONPointer
+
+    out: List[Tuple[str, Dict[str, Any], str]] = []
+    doc = untag(doc_t)
+
+    def arrays(v: Any, path: List[str]) -> Any:
+        if isinstance(v, list):
+            yield path, v
+            for i, x in enumerate(v):
+                yield from arrays(x, path + [str(i)])
+        elif isinstance(v, dict):
+            for k, x in v.items():
+                yield from arrays(x, path + [k])
+
+    def apply(op: str, ptr: Any) -> Any:
+        try:
+            return ("ok", canon(tag(getattr(JSONPatch(), op)(ptr, "NEW").apply(untag(doc_t)))))
+        except BaseException as e:  # noqa: BLE001
+            return ("error:" + exc_family(e), None)
+
+    for path, arr in arrays(doc, []):
+        n = len(arr)
+        for tok in sorted({"0", str(n), "-", "-1", str(-n), str(-n - 1), str(max(n - 1, 0))}):
+            ptr = JSONPointer.from_parts(path + [tok], unicode_escape=False)
+            base = apply("add", ptr)
+            resolves = True
+            try:
+                ptr.resolve(doc)
+            except BaseException:  # noqa: BLE001
+                resolves = False
+            for op in ("addne",) + (("addap",) if resolves else ()):
+                got = apply(op, ptr)
+                if got != base:
+                    kind = "negative-index" if tok.startswith("-") and tok != "-" else "index"
+                    out.append((f"{op}-differs-from-add-on-an-array|{kind}", {"doc": show(doc_t), "pointer": str(ptr), "add": str(base)[:200], op: str(got)[:200]}, f"{op} differs from add"))
+                    return out
+    return out
+
+
 def run(chk: Check, tier: str, seed: int) -> None:
     recs: List[Dict[str, Any]] = []
     r = tlc("MC_PatchValue", CFG.format(plen=2, acts=2 if tier == "quick" else 3, next="Next", init="Init"), timeout=2400)
@@ -187,6 +231,15 @@ def run(chk: Check, tier: str, seed: int) -> None:
     r = tlc("MC_PatchValue", CFG.format(plen=3 if tier == "quick" else 4, acts=depth - 1, next="NextSim", init="InitSim"), simulate=(num, depth + 1), seed=seed, workers=1, timeout=2400)
     chk.add_tlc(r)
     recs += r.records
+    seen_docs: Dict[str, Any] = {}
+    for rec in recs:
+        for h in rec["hist"]:
+            if h["act"] == "apply":
+                seen_docs.setdefault(json.dumps(h["doc"], sort_keys=True), h["doc"])
+    for res in core.pmap(sibling_operations, list(seen_docs.values())):
+        for sig, case, what in res:
+            chk.violation(sig, case, what)
+    chk.extra["documents_for_add_addne_addap_agreement"] = len(seen_docs)
     for rec, res in zip(recs, core.pmap(replay, recs)):
         chk.traces += 1
         if sum(1 for h in rec["hist"] if h["act"] == "apply") >= 2:
